@@ -119,6 +119,23 @@ func (r *runner) read(a, kind, k string) string {
 	}
 }
 
+// exists is the "found" flag a contract sees when it reads the slot (always true for account fields)
+func (r *runner) exists(a, kind, k string) bool {
+	if kind != "st" {
+		return true
+	}
+	ok, _ := r.sl.GetState(accts[a], []byte(k))
+	return ok
+}
+
+func (r *runner) existsAll() map[string]bool {
+	m := map[string]bool{}
+	for _, s := range allSlots() {
+		m[s["sl"]] = r.exists(s["a"], s["kind"], s["k"])
+	}
+	return m
+}
+
 func (r *runner) emit(m map[string]interface{}) { r.out = append(r.out, m) }
 
 func allSlots() []map[string]string {
@@ -182,10 +199,10 @@ func (r *runner) run(p *Plan) {
 				if nv.Sign() < 0 {
 					continue
 				}
-				r.emit(map[string]interface{}{"ev": "R", "sl": slot(op.A, "bal", ""), "v": pre.String()})
+				r.emit(map[string]interface{}{"ev": "R", "sl": slot(op.A, "bal", ""), "v": pre.String(), "ex": true})
 				r.sl.(*ledger.SimpleLedger).SubBalance(addr, d)
 			} else {
-				r.emit(map[string]interface{}{"ev": "R", "sl": slot(op.A, "bal", ""), "v": pre.String()})
+				r.emit(map[string]interface{}{"ev": "R", "sl": slot(op.A, "bal", ""), "v": pre.String(), "ex": true})
 				r.sl.(*ledger.SimpleLedger).AddBalance(addr, d)
 			}
 			if d.Sign() != 0 {
@@ -202,7 +219,7 @@ func (r *runner) run(p *Plan) {
 			r.sl.AddState(addr, []byte(op.K), v)
 			r.emit(map[string]interface{}{"ev": "W", "sl": slot(op.A, "st", op.K), "v": wv(op.V), "raw": op.V, "j": false})
 		case "Get":
-			r.emit(map[string]interface{}{"ev": "R", "sl": slot(op.A, op.Kind, op.K), "v": r.read(op.A, op.Kind, op.K)})
+			r.emit(map[string]interface{}{"ev": "R", "sl": slot(op.A, op.Kind, op.K), "v": r.read(op.A, op.Kind, op.K), "ex": r.exists(op.A, op.Kind, op.K)})
 		case "Query":
 			ok, vals := r.sl.QueryByPrefix(addr, op.Prefix)
 			out := []string{}
@@ -293,7 +310,7 @@ func (r *runner) run(p *Plan) {
 			r.open()
 			r.emit(map[string]interface{}{"ev": "Reopen", "version": int(r.sl.Version())})
 		case "ReadAll":
-			r.emit(map[string]interface{}{"ev": "ReadAll", "vals": r.readAll()})
+			r.emit(map[string]interface{}{"ev": "ReadAll", "vals": r.readAll(), "ex": r.existsAll()})
 		default:
 			panic("unknown op " + op.Op)
 		}
